@@ -28,13 +28,14 @@ Lead(w) == IF w = 2 THEN <<32, 32>> ELSE <<32>>
 RECURSIVE JoinSeq(_, _)
 JoinSeq(sep, ss) == IF ss = <<>> THEN <<>> ELSE IF Len(ss) = 1 THEN ss[1] ELSE ss[1] \o sep \o JoinSeq(sep, Tail(ss))
 CmdPat == <<67, 77, 68>>
-InitC05 == \E sig \in Seqs((KindIdx \cap (1..Len(C05Kinds))) \X BOOLEAN, MaxSig), its \in Seqs(1..Len(C05Items), MaxItems), w \in WsVariants, tail \in 0..Len(C05Bad) :
+InitC05 == \E sig \in Seqs((KindIdx \cap (1..Len(C05Kinds))) \X BOOLEAN, MaxSig), its \in Seqs(1..Len(C05Items), MaxItems), w \in WsVariants, tail \in 0..Len(C05Bad), fl \in BOOLEAN :
+   /\ (fl => tail > 0)           \* malformed tails are also executed by a zero-length call instead of a terminator
    /\ (Len(sig) + Len(its) + w) % NParts = Part
    /\ (tail > 0 => w = 0 /\ Len(sig) <= 1 /\ Len(its) <= 1)
    /\ LET ops == [i \in 1..Len(sig) |-> <<"p", C05Kinds[sig[i][1]], sig[i][2]>>]
           lst == Pick(C05Items, its) \o (IF tail > 0 THEN <<C05Bad[tail]>> ELSE <<>>)
           msg == CmdPat \o (IF lst = <<>> THEN <<>> ELSE Lead(w) \o JoinSeq(Sep(w), lst)) \o (IF w = 1 /\ lst # <<>> THEN <<32>> ELSE <<>>) \o LF
-      IN sc = Sc(<<<<CmdPat, 1>>>>, <<<<1, 1, 1, ops>>>>, 256, <<msg>>, [hdrs |-> <<CmdPat>>])
+      IN sc = Sc(<<<<CmdPat, 1>>>>, <<<<1, 1, 1, ops>>>>, 256, IF fl THEN <<SubSeq(msg, 1, Len(msg) - 1), <<>>>> ELSE <<msg>>, [hdrs |-> <<CmdPat>>])
 
 (* C05, several units in one message: the accounting of one unit must not depend on errors of earlier units *)
 InitC05m == \E us \in NESeqs(1..Len(C05mUnits), MaxUnits) :
